@@ -28,8 +28,11 @@ def main():
     skip_verify = "--skip-verify" in sys.argv
     claimed = [c["property_id"] for c in json.load(open(os.path.join(ROOT, "MANIFEST.json")))["checks"]]
     ids = claimed if ids == "all" else ids.split(",")
-    wt = tempfile.mkdtemp(prefix="seed_eval_", dir="/tmp")
-    os.rmdir(wt)
+    # one fixed path, so that cargo re-uses its build output from one evaluation to the next
+    wt = "/tmp/seed_eval_wt"
+    sh(["git", "-C", "/repo", "worktree", "remove", "--force", wt])
+    shutil.rmtree(wt, ignore_errors=True)
+    sh(["git", "-C", "/repo", "worktree", "prune"])
     target = "/tmp/seed_eval_target"
     out = {"patch": patch, "demo": demo, "verify": {}, "checks": {}}
     try:
